@@ -44,8 +44,8 @@ func gen(c *lib.Ctx) {
 	}
 	if all || part != "c06" {
 		genBulkBelowCap(c)
+		genCapacity(c) // quick: boundary stream + a few random ops; thorough: + 150 random ops
 		if c.Thorough() {
-			genCapacity(c)
 			genConcurrent(c)
 		}
 	}
@@ -387,6 +387,23 @@ func (h *hctx) bulk(op string, n, idbase uint64, base, step, d int64) string {
 
 func genBulkBelowCap(c *lib.Ctx) {
 	r := c.Rand.Fork("bulk")
+	// the closed form (Props/C07Fill: C07_fill_closed_form) against the real inserts and the
+	// model's own replay, also with a clock reading not later than the receive time, with
+	// equal receive times (step 0) and across a second boundary
+	for _, p := range []struct {
+		n       uint64
+		step, d int64
+	}{{40, 1000, 0}, {40, 3, -5}, {25, 0, 50}, {64, 40000000, 1}, {1, 1000, 50}, {0, 1000, 50}} {
+		h := newH(c, fmt.Sprintf("bulk closed form n=%d step=%d d=%d", p.n, p.step, p.d))
+		if a := h.bulk("srv.bulkcheck", p.n, 7, T0+999000000, p.step, p.d); a != "ok equal" {
+			h.fail("C07:bulk-closed-form", "store after n first requests of n clients in timestamp order is not the closed form (heap = arrival order)", map[string]any{"answer": a})
+		}
+		h.resync()
+		if p.n > 2 { // an interleaved request of a filled client is served its recorded pair
+			h.hr(hrIn{8, mkReq(t64(T0+999000000+p.step), rxA, txA), T0 + 4000000000, T0 + 4000000050})
+		}
+		c.Count("bulk:closed-form-small")
+	}
 	h := newH(c, "bulk below capacity")
 	h.do("srv.mode brief")
 	base := T0 + 5000000000
@@ -430,29 +447,152 @@ func (h *hctx) topInfo() (id uint64, qvalNs int64, ok bool) {
 	return id, 0, false
 }
 
+// genCapacity: the capacity regime at the real tssCap = 2^20. The store is filled through
+// 2^20 real handleRequest calls (srv.bulk; the model takes the closed form proved equal to the
+// replay in Props/C07: C07_fill_closed_form), then
+//   - a deterministic boundary stream around tssQ[0].qval (rx older / equal / one ns later /
+//     much later than the least recently active client's rank, each with the clock reading
+//     earlier than, equal to and later than that rank: the guard compares the RECEIVE time),
+//     eviction of exactly the least recently active client, stateless service, known clients
+//     at capacity, removal of an item followed by insertion without eviction;
+//   - random ops around the boundary (quick: a few; thorough: 150).
+// The stateless cases come first so that a failure there replays with reset/bulk/op only.
 func genCapacity(c *lib.Ctx) {
 	r := c.Rand.Fork("capacity")
 	h := newH(c, "capacity 2^20")
 	h.maxOps = 200
 	h.do("srv.mode brief")
 	const N = uint64(server.VerifC06TssCap)
-	base := T0 + 7000000000
-	if a := h.bulk("srv.bulk", N, 0, base, 1000, 50); a != fmt.Sprintf("ok n=%d", N) {
+	step := []int64{1000, 1000, 250, 7}[r.Intn(4)]
+	d := []int64{50, 50, 1, 3000}[r.Intn(4)]
+	base := T0 + 7000000000 + r.Range(0, 1000000)*1000
+	if a := h.bulk("srv.bulk", N, 0, base, step, d); a != fmt.Sprintf("ok n=%d", N) {
 		h.fail("C07:bulk", "bulk insert failed", map[string]any{"answer": a})
 	}
-	h.do("srv.digest")
+	dig0 := h.do("srv.digest")
 	h.checkHeapWalk()
 	// the closed form on the real store (qidx = arrival index, heap = arrival order)
 	for _, i := range []uint64{0, 1, 2, 12345, N - 1} {
 		it, ok, _, _, _ := server.VerifC06Peek(key(i))
-		if !ok || it.Qidx != int(i) || it.Len != 1 || it.Qval != t64(base+int64(i)*1000) {
+		if !ok || it.Qidx != int(i) || it.Len != 1 || it.Qval != t64(base+int64(i)*step) {
 			h.fail("C07:bulk-closed-form", "store after 2^20 first requests in timestamp order is not the closed form", map[string]any{"i": i, "item": itemStr(&it)})
 		}
 	}
-	late := base + int64(N)*1000
+	late := base + int64(N)*step
 	next := N + 10
 	newcomer := func() uint64 { next++; return next }
-	for j := 0; j < 150 && h.fails == 0; j++ {
+	req := mkReq(z64(), rxA, txA)
+
+	// ---- boundary stream, part 1: newcomers older than the least recently active client
+	// (must be served statelessly whatever the clock says when they are handled)
+	_, q, tok := h.topInfo()
+	if !tok {
+		h.fail("C07:bulk", "no top of the heap after the fill", nil)
+		return
+	}
+	for _, cse := range []struct {
+		name    string
+		rx, now int64
+	}{
+		{"older-clock-older", q - 2, q - 1},
+		{"older-clock-equal", q - 1, q},
+		{"older-clock-one-later", q - 1, q + 1},
+		{"older-clock-much-later", q - 3, late + 20},
+		{"second-older-clock-much-later", q - 1000000000, late + 999},
+		{"older-clock-before-rx", q - 1, q - 5},
+	} {
+		c.Count("capgen:boundary:" + cse.name)
+		h.hr(hrIn{newcomer(), req, cse.rx, cse.now})
+	}
+	if dig1 := h.do("srv.digest"); dig1 != dig0 {
+		h.fail("C07:stateless-changed-store", "requests of newcomers older than every stored client changed the full store",
+			map[string]any{"digest_before": dig0, "digest_after": dig1})
+	}
+
+	// ---- part 2: newcomers at least as recent: exactly the least recently active one goes.
+	// The harness's own expectation: first client 0 of the fill (rank q); each newcomer is
+	// stored with a rank below client 1's, so it is the next one to go.
+	expect := uint64(0)
+	for _, cse := range []struct {
+		name      string
+		drx, dnow int64
+		late      bool
+	}{
+		{"equal-clock-later", 0, 5, false},
+		{"one-later", 1, 2, false},
+		{"equal-clock-earlier", 1, -7, false},
+		{"much-later", 0, 20, true},
+	} {
+		topID, _, tok := h.topInfo()
+		if !tok || topID != expect {
+			h.fail("C07:heap-order", "the top of the heap is not the least recently active client", map[string]any{"top": topID, "expected": expect})
+			break
+		}
+		c.Count("capgen:boundary:" + cse.name)
+		nc, rx := newcomer(), q+cse.drx
+		if cse.late {
+			late += 100
+			rx = late
+		}
+		h.hr(hrIn{nc, req, rx, rx + cse.dnow})
+		_, still, _, _, _ := server.VerifC06Peek(key(expect))
+		_, stored, _, _, _ := server.VerifC06Peek(key(nc))
+		if still || !stored {
+			h.fail("C07:evict-wrong", "the newcomer at least as recent as the least recently active client did not replace exactly that client",
+				map[string]any{"least_recently_active": expect, "still_stored": still, "newcomer_stored": stored})
+		}
+		expect = nc
+	}
+	if topID, _, _ := h.topInfo(); topID != 1 {
+		h.fail("C07:heap-order", "after the eviction of client 0 and of the newcomers ranked below client 1 the top is not client 1", map[string]any{"top": topID})
+	}
+
+	// ---- part 3: known clients at capacity (no eviction, count unchanged)
+	if topID, _, tok := h.topInfo(); tok {
+		late += 100
+		c.Count("capgen:boundary:top-client-again")
+		h.hr(hrIn{topID, req, late, late + 20}) // heap.Fix moves it away from the top
+		topID2, q2, _ := h.topInfo()
+		c.Count("capgen:boundary:top-client-interleaved")
+		h.hr(hrIn{topID2, mkReq(t64(q2), rxA, txA), late + 10, late + 30}) // interleaved hit
+		mid := N/2 + uint64(r.Intn(1000))
+		c.Count("capgen:boundary:mid-client-older-rx")
+		h.hr(hrIn{mid, req, base + int64(mid)*step - 5, late + 40}) // older than its kept rx: rank unchanged
+		c.Count("capgen:boundary:mid-client-colliding-rx")
+		h.hr(hrIn{mid + 1, req, base + int64(mid+1)*step, late + 50}) // collides with its fill rx: bumped
+		c.Count("capgen:boundary:last-client-again")
+		h.hr(hrIn{N - 1, req, late + 60, late + 70})
+	}
+
+	// ---- part 4: an item removed (lost tx timestamp), then newcomers: inserted without
+	// eviction even if older than everybody; full again: stateless / evicting
+	if topID, q, tok := h.topInfo(); tok {
+		id := topID + 3
+		it, ok, _, _, _ := server.VerifC06Peek(key(id))
+		if ok && it.Len == 1 {
+			if tm, found := h.logOf(id)[it.Pairs[0].Rx]; found {
+				c.Count("capgen:boundary:remove-item-then-older-newcomer")
+				h.utx(id, tm.rxNs, tm.txNs) // lost: whole item removed, n = cap-1
+				nc := newcomer()
+				h.hr(hrIn{nc, req, q - 10, late + 80}) // below capacity: stored, becomes the top
+				if t2, _, _ := h.topInfo(); t2 != nc {
+					h.fail("C07:heap-order", "a newcomer older than every stored client, stored below capacity, is not the top of the heap", map[string]any{"top": t2, "newcomer": nc})
+				}
+				c.Count("capgen:boundary:full-again-older")
+				h.hr(hrIn{newcomer(), req, q - 11, late + 90}) // older than the new top: stateless
+				c.Count("capgen:boundary:full-again-between")
+				h.hr(hrIn{newcomer(), req, q - 9, late + 95}) // later than the new top, older than the rest: evicts it
+				if _, still, _, _, _ := server.VerifC06Peek(key(nc)); still {
+					h.fail("C07:evict-wrong", "least recently active client not evicted by a more recent newcomer", map[string]any{"id": nc})
+				}
+			}
+		}
+	}
+	h.do("srv.digest")
+	h.checkHeapWalk()
+
+	// ---- random ops around the boundary
+	for j := 0; j < c.Scale(10, 150) && h.fails == 0; j++ {
 		late += r.Range(1, 3000)
 		topID, topNs, tok := h.topInfo()
 		switch k := r.Intn(100); {
@@ -480,7 +620,7 @@ func genCapacity(c *lib.Ctx) {
 			id := topID + uint64(r.Intn(40))
 			rxt := late
 			if r.Chance(30) {
-				rxt = base + int64(id)*1000 // colliding with its first exchange
+				rxt = base + int64(id)*step // colliding with its first exchange
 			}
 			h.hr(hrIn{id, mkReq(z64(), rxA, txA), rxt, rxt + r.Range(-2, 20)})
 		case k < 92 && tok: // lost tx timestamp of a single-exchange client: whole item removed,
@@ -508,8 +648,10 @@ func genCapacity(c *lib.Ctx) {
 			h.checkHeapWalk()
 		}
 	}
-	h.do("srv.digest")
-	h.checkHeapWalk()
+	if c.Thorough() {
+		h.do("srv.digest")
+		h.checkHeapWalk()
+	}
 	h.do("srv.reset")
 	h.do("srv.mode full")
 	h.clear()
